@@ -1594,3 +1594,22 @@ M('C09','get-absent-by-length','ads/map_impl.go','''	if valueBytes == nil {
 	}''','''	if len(valueBytes) == 0 {
 		return value, false, nil
 	}''','presence/one-predicate presence test on the result of tree.Get in ads.authenticatedMap.Get')
+# C19: guard evaluation at the critical pair / sign-factor validation
+M('C19','safediv-guard-wrong-dividend-test','core/safemath/safe_math.go','''	if minusOne := ^T(0); minusOne < 0 && y == minusOne && x != 0 && x == -x {''','''	if minusOne := ^T(0); minusOne < 0 && y == minusOne && x == 0 {''','signed-div/guarded x / y in core/safemath.SafeDiv')
+M('C19','safemul-guard-unsigned-only','core/safemath/safe_math.go','''	if minusOne := ^T(0); minusOne < 0 && x == minusOne && y == -y {''','''	if minusOne := ^T(0); minusOne >= 0 && x == minusOne && y == -y {''','signed-div/guarded')
+M('C19','mulint64-positive-sign-test-dropped','core/safemath/safe_math.go','''		if signBitSet {
+			return 0, ierrors.WithMessagef(ErrIntegerOverflow, "%d * %d", x, y)
+		}
+	} else if !signBitSet {''','''		_ = signBitSet
+	} else if !signBitSet {''','wrap/round-trip-validated int64(lo)*resultSign in core/safemath.SafeMulInt64')
+M('C19','silent-guard-predicate-helpers','core/safemath/safe_math.go','','','',silent=True,edits=[('core/safemath/safe_math.go','''	if minusOne := ^T(0); minusOne < 0 && y == minusOne && x != 0 && x == -x {''','''	if isMinusOneV(y) && isSignedMinV(x) {'''),('core/safemath/safe_math.go','''func SafeLeftShift[T Integer](val T, shift uint8) (T, error) {''','''func isMinusOneV[T Integer](v T) bool {
+	allOnes := ^T(0)
+
+	return allOnes < 0 && v == allOnes
+}
+
+func isSignedMinV[T Integer](v T) bool {
+	return ^T(0) < 0 && v != 0 && v == -v
+}
+
+func SafeLeftShift[T Integer](val T, shift uint8) (T, error) {''')])
